@@ -18,8 +18,17 @@ go build ./... && go test -vet=off -count=1 ./... 2>&1 | grep -v "no test files"
 cp $d/demo_test.go $pkg/zz_seeded_demo_test.go
 echo "--- demo with patch (must FAIL)"; go test -vet=off -count=1 -run "$tname" ./$pkg 2>&1 | tail -3
 cd /verif
+GOSYM=${GOSYM:-./build/gosym}
+if [ "${INWT:-0}" = 1 ]; then
+  # pre-screening without touching /repo: run the check against the patched scratch worktree
+  rm -f $wt/$pkg/zz_seeded_demo_test.go
+  echo "--- check $prop on patched worktree $wt"
+  GOSYM_BUILD_SUFFIX=.seed$$ timeout 3000 $GOSYM -repo $wt -prop $prop -workers ${WORKERS:-8} -noevidence 2>&1 | grep -E "^VIOLATION|^  harness|^==|INCONCL|MISMATCH|VACUOUS|UNDECIDED" | cut -c1-240 | head -${LINES_MAX:-12}
+  rm -rf /verif/build/replay-$prop.seed$$ /verif/replays/$prop.seed$$
+  exit 0
+fi
 git -C /repo apply $d/patch.diff || { echo "cannot apply to /repo"; exit 2; }
 echo "--- check $prop on patched /repo"
-timeout 3000 ./build/gosym -prop $prop -workers ${WORKERS:-8} -noevidence 2>&1 | grep -E "^VIOLATION|^  harness|^==|INCONCL|MISMATCH|VACUOUS" | cut -c1-240 | head -${LINES_MAX:-12}
+timeout 3000 $GOSYM -prop $prop -workers ${WORKERS:-8} -noevidence 2>&1 | grep -E "^VIOLATION|^  harness|^==|INCONCL|MISMATCH|VACUOUS|UNDECIDED" | cut -c1-240 | head -${LINES_MAX:-12}
 git -C /repo checkout -- .
 git -C /repo status --short | head -3
